@@ -131,12 +131,15 @@ Section Reader.
     | _ => (acc, ts)
     end.
 
-  (* while let Some((kind, s)) = tokens.peek() { match kind { R_PARENS => break,
-       IDENT | COLON => version_string.push_str(s), n => return Err(..) } tokens.next(); } *)
+  (* while let Some((kind, s)) = tokens.peek() { match kind { R_PARENS | WHITESPACE => break,
+       IDENT | COLON => version_string.push_str(s), n => return Err(..) } tokens.next(); }
+     (WHITESPACE since /repo 3e262bf: "a (>= 1 )" is accepted; the blanks are eaten by the
+     eat_whitespace that follows the loop) *)
   Fixpoint read_version_string (ts : toks) (acc : str) : res (str * toks) :=
     match ts with
     | [] => Ok (acc, [])
     | (R_PARENS, _) :: _ => Ok (acc, ts)
+    | (WHITESPACE, _) :: _ => Ok (acc, ts)
     | (IDENT, s) :: r => read_version_string r (acc ++ s)
     | (COLON, s) :: r => read_version_string r (acc ++ s)
     | _ => Err 4%N
@@ -309,10 +312,44 @@ Arguments print_relations {V} vprint rs.
 
 (* ------------------------------------------------------------------ pre-fix code *)
 (* The reader and the printer as they are in /repo BEFORE proposed_fixes/C14-lossy-relations.patch.
-   Only the three places that the patch touches differ. *)
+   Only the places that the fixes touch differ (a2c6991 negated architectures, 7cd890b restriction
+   lists and Display, 3e262bf whitespace before ')'). *)
 Section OldReader.
   Variable V : Type.
   Variable vparse : str -> option V.
+
+  (* the version loop before /repo 3e262bf: only R_PARENS ends it, whitespace is an error *)
+  Fixpoint old_read_version_string (ts : toks) (acc : str) : res (str * toks) :=
+    match ts with
+    | [] => Ok (acc, [])
+    | (R_PARENS, _) :: _ => Ok (acc, ts)
+    | (IDENT, s) :: r => old_read_version_string r (acc ++ s)
+    | (COLON, s) :: r => old_read_version_string r (acc ++ s)
+    | _ => Err 4%N
+    end.
+
+  Definition old_read_version (ts : toks) : res (option (vconstraint * V) * toks) :=
+    match ts with
+    | (L_PARENS, _) :: r =>
+      let '(c, r1) := read_constraint (eat_whitespace r) [] in
+      match vc_of_str c with
+      | None => Err 3%N
+      | Some vc =>
+        match old_read_version_string (eat_whitespace r1) [] with
+        | Ok (vs, r2) =>
+          match vparse vs with
+          | None => Err 5%N
+          | Some v =>
+            match eat_whitespace r2 with
+            | (R_PARENS, _) :: r3 => Ok (Some (vc, v), r3)
+            | _ => Err 6%N
+            end
+          end
+        | Err e => Err e | Panic n => Panic n | OutOfFuel => OutOfFuel
+        end
+      end
+    | _ => Ok (None, ts)
+    end.
 
   (* loop { match tokens.next() { Some((IDENT, s)) => archs.push(s), Some((WHITESPACE, _)) => {},
        Some((R_BRACKET, _)) => break, _ => return Err(..) } } *)
@@ -395,7 +432,7 @@ Section OldReader.
   Definition old_relation_from_tokens (ts : toks) : res (relation V) :=
     bind (read_name ts) (fun '(name, t1) =>
     bind (read_archqual (eat_whitespace t1)) (fun '(aq, t2) =>
-    bind (read_version vparse (eat_whitespace t2)) (fun '(ver, t3) =>
+    bind (old_read_version (eat_whitespace t2)) (fun '(ver, t3) =>
     bind (old_read_architectures (eat_whitespace t3)) (fun '(archs, t4) =>
     bind (old_read_profiles (S (length t4)) (eat_whitespace t4) []) (fun '(profs, t5) =>
     match eat_whitespace t5 with
@@ -461,6 +498,7 @@ Section OldPrinter.
     join [44; 32]%N (map old_print_entry rs).
 End OldPrinter.
 
+Arguments old_read_version {V} vparse ts.
 Arguments old_relation_from_tokens {V} vparse ts.
 Arguments old_relation_from_str {V} vparse s.
 Arguments old_read_alternatives {V} vparse ps.
